@@ -3,6 +3,9 @@ import AsModel.Runtime.SetMatch
 import AsModel.Runtime.Offset
 import AsModel.Runtime.SrcPath
 import AsModel.Runtime.Label
+import AsModel.SExp
+import AsModel.Render
+import AsModel.RustPrims
 /-!
 Line-protocol driver: one request per stdin line, one answer per stdout line.
 The Rust harnesses answer the same lines by calling the real code; the check
@@ -58,7 +61,48 @@ def parseEntries : Nat → List String → Option (List DEntry)
 
 def joinOr (xs : List String) : String := if xs.isEmpty then "-" else ",".intercalate xs
 
+mutual
+partial def patLocs : Pat → List String
+  | p => s!"{p.id}:{showSp p.location}" :: (match p with
+    | .struct _ _ items _ | .enum _ _ items | .tuple _ _ items | .slice _ _ items
+    | .set _ _ items _ | .map _ _ items _ => itemsLocs items
+    | _ => [])
+partial def itemsLocs : Items → List String
+  | .nil => []
+  | .cons _ _ p tl => patLocs p ++ itemsLocs tl
+end
+
+/-- Tab-separated requests carrying S-expressions. -/
+def answerTab (fields : List String) : String :=
+  match fields with
+  -- expand <AST> <value tokens>  ->  ok <locations> <expansion tokens> | panic
+  | ["expand", ast, value] =>
+    match (SExp.parse ast).bind readPat, (SExp.parse value).bind readToks with
+    | some p, some v =>
+      if p.expandPanics then "panic"
+      else s!"ok\t{" ".intercalate (patLocs p)}\t{showToks ((expand p).toks v)}"
+    | _, _ => "bad-op"
+  -- frontier <AST> <value> <meanings>  ->  ok <entry>* | illtyped
+  -- entry = node|location|hex(label)|hex(actual)|hex(expected) ; the specification's answer
+  | ["frontier", ast, val, ms, join] =>
+    match (SExp.parse ast).bind readPat, (SExp.parse val).bind readVal, (SExp.parse ms).bind readMeanings with
+    | some p0, some v, some m =>
+      -- under a real compiler session on stable `Span::join` returns `None`: set patterns anchor on `#`
+      let p := if join = "nojoin" then p0.noJoin else p0
+      match frontier (rustPrims m) p v with
+      | none => "illtyped"
+      | some es =>
+        let nodes := genNodes p none
+        let shown := es.map fun e =>
+          match nodes.lookup e.node with
+          | some d => s!"{e.node}|{showSp d.loc}|{hex (errorLabel d.kind e.actual e.expected)}|{hex e.actual}|{match e.expected with | some x => hex x | none => "none"}"
+          | none => s!"{e.node}|?|?|{hex e.actual}|?"
+        "ok\t" ++ " ".intercalate shown
+    | _, _, _ => "bad-op"
+  | _ => "bad-op"
+
 def answer (line : String) : String :=
+  if line.contains '\t' then answerTab (line.splitOn "\t") else
   match (line.splitOn " ").filter (· ≠ "") with
   | "setmatch" :: rest :: p :: e :: rows =>
     match p.toNat?, e.toNat? with
@@ -122,7 +166,7 @@ def answer (line : String) : String :=
 partial def loop (h : IO.FS.Stream) (out : IO.FS.Stream) : IO Unit := do
   let line ← h.getLine
   if line.isEmpty then return ()
-  out.putStrLn (answer (line.trimAscii.toString))
+  out.putStrLn (answer ((line.dropEndWhile (· == '\n')).toString))
   loop h out
 
 def main : IO Unit := do
